@@ -11,7 +11,6 @@ import (
 	"encoding/json"
 	"fmt"
 	"io"
-	"os"
 	"strconv"
 	"strings"
 	"testing"
@@ -34,15 +33,7 @@ const (
 )
 
 func c16Excluded(id string) bool {
-	if vh.OpenFinding("C16", id) || vh.OpenFinding("C17", id) {
-		return true
-	}
-	for _, x := range strings.Split(os.Getenv("VERIF_C17_EXCLUDE")+","+os.Getenv("VERIF_C16_EXCLUDE"), ",") {
-		if x == id || x == "all" {
-			return true
-		}
-	}
-	return false
+	return vh.OpenFinding("C16", id)
 }
 
 // ---------------------------------------------------------------------------------------------
@@ -558,6 +549,9 @@ func c16JsonCase(rt *rapid.T, rec *vh.Recorder) {
 	// the value reached by editing a stored neighbour document
 	if m := c16EditRoute(rt, ctx, ns, v, want); m != "" {
 		classes = append(classes, m)
+		if strings.HasPrefix(m, "excluded:") {
+			rec.Excluded(1)
+		}
 		if strings.HasPrefix(m, "edit:") {
 			producers++
 		}
